@@ -25,6 +25,7 @@ import (
 	log "github.com/hashicorp/go-hclog"
 	"github.com/openbao/openbao/sdk/v2/helper/verifx"
 	"github.com/openbao/openbao/sdk/v2/logical"
+	"pgregory.net/rapid"
 )
 
 // vxBackend builds a PKI backend instance over s the way the server does at mount/unseal time:
@@ -273,3 +274,16 @@ func vxStable(msg string) string {
 	msg = vxReBigDec.ReplaceAllString(msg, "<number>")
 	return msg
 }
+
+// vxChance is true with the given probability. rapid's integer generators favour small values, so the
+// percentage is built from fair coin flips; all-false (the shrink target) means "feature off".
+func vxChance(rt *rapid.T, label string, percent int) bool {
+	v := 0
+	for i := 0; i < 6; i++ {
+		if rapid.Bool().Draw(rt, label) {
+			v |= 1 << i
+		}
+	}
+	return v*100 >= (100-percent)*64
+}
+
